@@ -67,7 +67,7 @@ PROPS = {
             dict(mode="det", name="mq_spsc", quick=400, thorough=4000, nontrivial=r"mq\.spsc\.first@\d+ store|t0 ret - mq\.(pop|peek) -1 |t0 ret - mq\.bulk_pop 0 "),
         ],
         trusted_base=TB_COMMON + [
-            "level B (per-atomic-operation models Mpsc.lean / Spsc.lean) is tied to level A (where the FIFO refinement is proved) by an executable simulation check on every replayed trace, not by a proof: the refinement B ⊑ A and block safety are stated in Props/C03.lean as open",
+            "two-level models: the FIFO refinement is proved at level A (logical indices); the replayed per-atomic-operation models (level B) are PROVED to refine level A and to be block safe (Props/C03: mpscB_refines_A, spscB_refines_A, *_block_safe), and the same simulation is re-checked executably on every replayed trace",
             "block tokens of the trace are generation-unique (the canonicaliser renames a reused address); adversarial address reuse (ABA on the packed tail word) is a model transition (Env.aba) but is not exercised by the generated scenarios",
             "tools/extract_consts_mpsc.py (regex extraction of BLOCK_SHIFT / repr(align) / closing bit and of the branch conditions the model's cases stand for)",
         ],
@@ -83,7 +83,9 @@ PROPS = {
         lean_props=["MayVerif.Props.C05"],
         families=[dict(mode="det", name="mutex", quick=600, thorough=20000, nontrivial=r" q\.push "),
                   # systematic: every schedule with <= 2 preemptions of a few seeded scenarios, on the real code
-                  dict(mode="detx", name="mutex", quick=4, thorough=64, nontrivial=r" q\.push ")],
+                  dict(mode="detx", name="mutex", quick=4, thorough=64, nontrivial=r" q\.push "),
+                  # live: coroutines + threads on one Mutex, some coroutines cancelled (Env.abort path on the real code; park/unpark silent)
+                  dict(mode="live", name="cancel_mutex", quick=240, thorough=4000, nontrivial=r"sync\.blocking\.(unparked|release)@\S+ (load|swap) ", timeout=600)],
         trusted_base=TB_COMMON + [
             "ThreadPark is replaced by the controller's virtual token in det mode (the real parking_lot implementation is not exercised there)",
             "may_queue::mpsc::Queue (the waiter queue) is an atomic FIFO at this layer (C03 is its own check)",
@@ -101,8 +103,8 @@ PROPS = {
             dict(mode="det", name="sem", quick=2500, thorough=20000, nontrivial=r" q\.push "),
             dict(mode="det", name="syncflag", quick=1500, thorough=15000, nontrivial=r" q\.push "),
             # systematic: every schedule (time-out choices included) with <= 2 preemptions of a few seeded scenarios, on the real code
-            dict(mode="detx", name="sem", quick=4, thorough=48, nontrivial=r" q\.push "),
-            dict(mode="detx", name="syncflag", quick=4, thorough=48, nontrivial=r" q\.push "),
+            dict(mode="detx", name="sem", quick=2, thorough=48, nontrivial=r" q\.push "),
+            dict(mode="detx", name="syncflag", quick=2, thorough=48, nontrivial=r" q\.push "),
         ],
         trusted_base=TB_COMMON + [
             "ThreadPark is replaced by the controller's virtual token in det mode; a time-out is a schedule choice of the controller (the real parking_lot implementation and real clocks are not exercised there)",
@@ -154,6 +156,8 @@ PROPS = {
         lean_props=["MayVerif.Props.C11"],
         families=[
             dict(mode="det", name="condvar", quick=700, thorough=20000, nontrivial=r"sync\.condvar\.to_wake@0 q\.pop 0 0 SyncBlocker"),
+            # systematic: every schedule with <= 2 preemptions (time-outs included) of a few seeded scenarios
+            dict(mode="detx", name="condvar", quick=3, thorough=32, nontrivial=r"sync\.condvar\.to_wake@0 q\.pop 0 0 SyncBlocker"),
             dict(mode="det", name="barrier", quick=300, thorough=6000, nontrivial=r"sync\.condvar\.to_wake@0 q\.pop 0 0 SyncBlocker"),
             dict(mode="det", name="waitgroup", quick=300, thorough=6000, nontrivial=r"sync\.condvar\.to_wake@0 q\.push SyncBlocker"),
         ],
@@ -192,5 +196,43 @@ PROPS = {
             "visibility of data written under the lock follows from SC, which is assumed",
         ],
         rule="det mode: rwlock_reg = 8 fixed witness shapes of F1a/F1b (poisoned lock, try_read + drop of the guard inside Poisoned; simultaneous write/try_write/read callers on a free poisoned lock) under seeded schedules; rwlock = 2-5 threads x 1-7 read/write/try_read/try_write/is_poisoned/drop operations incl. panic while holding the write guard and guards recovered from PoisonError; non-trivial = a poisoned guard was handed out (reg) / at least one waiter registered on the gate or on rlock (rwlock); distinct = SHA-1 of the canonical trace",
+    ),
+    "C09": dict(
+        lean_props=["MayVerif.Props.C09"],
+        families=[
+            dict(mode="live", name="cancel", quick=360, thorough=6000, nontrivial=r" fetch_or ", timeout=600),
+            dict(mode="live", name="cancel_mutex", quick=360, thorough=6000, nontrivial=r"sync\.blocking\.(unparked|release)@\S+ (load|swap) ", timeout=600),
+        ],
+        trusted_base=TB_COMMON + [
+            "live mode: the recorded trace (a linearization of the hooked operations, logged under one lock) is the replay artefact; schedules come from the OS plus seeded perturbation",
+            "generator crate: context switch, `para` slot (set_para / co_get_yield = take, not reset by init_code), panic capture; rustc unwinding runs every drop exactly once (drop counters are a harness oracle)",
+            "Park's own state/wait_kernel protocol (C02), the timer list (C08/C19) and the scheduler queues (C01) are abstracted: un-parker and timer are event actors that `take` the wait slot at any time; io cancellation (`io` slot) is abstract (always empty)",
+            "cancel_mutex: the Mutex model of C05; in live traces the blocker's park/unpark are silent model steps inferred from the next event",
+        ],
+        assumptions=[
+            "cancel_stops_target is proved only for kernel tails that do not overlap (ov = false); the code allows the overlap and the theorem is FALSE there: witness cancel_lost_stale_set_co, reproduced on the real code (F14, pending_fixes/README-C09.md); the fixed order is proved in full (cancel_stops_target_fixed) and is the replay variant once src/sleep.rs registers before it publishes (header fixed=1)",
+            "quiescence form of the no-hang claim (fair scheduling assumed); cancellation disabled (disable_cancel in effect) defers the stop by design",
+            "semaphore / condvar / rwlock / channel / join / select / socket instances of the hand-over clause belong to C10/C11/C12/C06/C01/C16/C18",
+            "sequential consistency",
+        ],
+        rule="live mode, 1-3 workers, perturbation 0/10/30/60 %: `cancel` = one target coroutine running 1-5 of park / park_timeout / sleep / yield_now (most end in a wait only the cancel can end), a canceller thread or coroutine firing cancel() 1-2 times after 0-300 us or at a seeded progress count, optionally an un-parker thread; `cancel_mutex` = 2-4 coroutines + 0-2 threads x 1-3 critical sections on one Mutex (some waiting inside the section), 1-2 coroutines cancelled; non-trivial = a cancel() was issued (fetch_or) / a SyncBlocker hand-over flag was read by an aborting waiter or a waker; distinct = SHA-1 of the canonical trace",
+    ),
+    "C08": dict(
+        lean_props=["MayVerif.Props.C08"],
+        # translator: ms/ns factors, HASH_CAP, rounding direction of the epoll conversion -> Generated/ConstsTime.lean
+        pre_build=["python3", "tools/extract_consts_time.py"],
+        families=[
+            dict(mode="det", name="time_dur", quick=300, thorough=6000, nontrivial=r" dur\.take "),
+            dict(mode="det", name="timeout_list", quick=500, thorough=8000, nontrivial=r" tl\.fire "),
+        ],
+        trusted_base=TB_COMMON + [
+            "std::time::Duration (as_nanos, from_millis, from_nanos), u128::div_ceil, Instant arithmetic: modelled by their documented meaning on total nanoseconds",
+            "tools/extract_consts_time.py (regular expressions over the current source) for the unit factors and HASH_CAP",
+        ],
+        assumptions=[
+            "durations up to usize::MAX ms (the stored word saturates beyond) and deadlines below 2^64 ns (584 years) - stated as hypotheses of the theorems",
+            "real-time promptness on a loaded machine is not asserted anywhere (lower bounds are exact, lateness is only bounded in virtual time)",
+        ],
+        rule="time_dur: one actor runs the real AtomicDuration::{new,store,take,get} and TimeOutList::add_timer+schedule_timer (virtual clock) over a stratified sample of the Duration range from the scenario seed (0, 1 ns, < 1 ms, k ms +- 1 ns, seconds, hours, 2^63/2^64 ns, usize::MAX ms, Duration::MAX); every output is recomputed by the Lean model; non-trivial = at least one store/take round trip; distinct = SHA-1 of the canonical trace",
     ),
 }
